@@ -37,6 +37,7 @@ Print Assumptions C09_mpirun_enacts.
 Theorem C09_mpirun_denotation : forall c st t,
   c_lm c = MPIRUN -> forallb has_cores (t_slots t) = true ->
   c_dpl_named c && (1 <? t_cpr t) = false ->
+  (MIN_NNODES_IN_LIST <? zlen (map s_node (t_slots t))) && t_wfail t = false ->
   exists cmd, snd (get_launch_cmds c st t) = inr cmd /\
     den c cmd = Some {| p_count := zlen (map s_node (t_slots t));
                         p_nodes := NList (map s_node (t_slots t)); p_pins := None |}.
@@ -62,7 +63,7 @@ Print Assumptions C09_mpiexec_enacts_partial.
 
 (* rank file: rank i runs on the node of slot i, bound to the cores of slot i *)
 Theorem C09_mpiexec_rankfile_pins : forall c st t,
-  c_lm c = MPIEXEC -> c_rf c = true -> t_slots t <> [] ->
+  c_lm c = MPIEXEC -> c_rf c = true -> t_slots t <> [] -> t_wfail t = false ->
   exists cmd, snd (get_launch_cmds c st t) = inr cmd /\
     den c cmd = Some {| p_count := zlen (map s_node (t_slots t));
                         p_nodes := NList (map s_node (t_slots t));
@@ -197,9 +198,35 @@ Example C09_selection_nonvacuous :
   let cs := [cfg0 FORK OMPI; cfg0 SSH OMPI] in
   let cs := map (fun c => Build_cfg (c_lm c) false false false false false OMPI false false false false 20
                             false false 1 false 64 4 10 0 [] false true) cs in
-  fst (select_obs cs (Build_task [sl 1 0] [] 1 1 0 false true 0 false false false)) = inr (Some 1%nat) /\
-  fst (select_obs cs (Build_task [sl 10 0] [] 1 1 0 false true 0 false false false)) = inr (Some 0%nat).
+  fst (select_obs cs (Build_task [sl 1 0] [] 1 1 0 false true 0 false false false false)) = inr (Some 1%nat) /\
+  fst (select_obs cs (Build_task [sl 10 0] [] 1 1 0 false true 0 false false false false)) = inr (Some 0%nat).
 Proof. split; vm_compute; reflexivity. Qed.
+
+
+(* ---- error path: the host / rank / node / ERF file cannot be written into
+        the task sandbox (t_wfail).  The enactment theorems above hold for
+        every task, with or without the fault ("emitted => enacts"); in
+        addition: ---- *)
+
+(* a method that has to write a file for this task (mpirun above 42 hosts,
+   mpiexec always, srun above 42 nodes, jsrun ERF) produces NO command when
+   the write fails: the task is refused with an error *)
+Theorem C09_write_failure_refuses : forall c st t, t_wfail t = true -> writes_file c t = true ->
+  exists e, snd (get_launch_cmds c st t) = inl e.
+Proof. exact wfail_refuses. Qed.
+Print Assumptions C09_write_failure_refuses.
+
+(* and whatever command is emitted under the fault names no file *)
+Theorem C09_write_failure_no_file : forall c st t cmd, t_wfail t = true ->
+  snd (get_launch_cmds c st t) = inr cmd -> file cmd = None.
+Proof. exact wfail_no_file. Qed.
+Print Assumptions C09_write_failure_no_file.
+
+Example C09_write_failure_nonvacuous :
+  let c := cfg0 MPIEXEC OMPI in
+  let t := Build_task [sl 1 0; sl 2 0] [] 2 1 0 true true 0 false false false true in
+  valid t /\ writes_file c t = true /\ snd (get_launch_cmds c [] t) = inl EOs.
+Proof. repeat split; try discriminate; vm_compute; reflexivity. Qed.
 
 (* ---- the oracle's multiset / set comparisons mean what they say ---- *)
 Theorem C09_oracle_multiset : forall a b : list Z,
